@@ -340,6 +340,11 @@ pub fn children(ex: &Exec) -> Vec<RunSpec> {
 /// like `children`, but deviations only at the decision indices in `only` (a focused search, e.g. "pre-empt a
 /// thread only where it is about to write a log line")
 pub fn children_at(ex: &Exec, only: Option<&std::collections::HashSet<usize>>) -> Vec<RunSpec> {
+    children_sel(ex, only, false)
+}
+
+/// `timers_only`: the only deviations are timed waits expiring first
+pub fn children_sel(ex: &Exec, only: Option<&std::collections::HashSet<usize>>, timers_only: bool) -> Vec<RunSpec> {
     let start = ex.spec.devs.last().map(|d| d.0 + 1).unwrap_or(0);
     let mut out = vec![];
     for i in start..ex.res.decisions.len() {
@@ -350,6 +355,9 @@ pub fn children_at(ex: &Exec, only: Option<&std::collections::HashSet<usize>>) -
         }
         let d = &ex.res.decisions[i];
         for &alt in &d.enabled {
+            if timers_only && !d.timers.contains(&alt) {
+                continue;
+            }
             if alt != d.default {
                 let mut s = ex.spec.clone();
                 s.devs.push((i, ex.res.threads[alt].clone()));
@@ -378,10 +386,17 @@ pub fn explore(pool: &Pool, jobs: Vec<(Arc<Scenario>, RunSpec, usize)>, judge: J
                     Some(ex.res.events.iter().filter(|e| e.name == "write:stdio" || e.name == "MARK").map(|e| e.idx).collect())
                 } else if scen.name.contains("@atomicpoints") {
                     Some(ex.res.events.iter().filter(|e| e.name == "ATOMIC" || e.name == "MARK").map(|e| e.idx).collect())
+                } else if scen.name.contains("@afterfault") {
+                    //   "@afterfault": only after the first altered system call
+                    match ex.res.events.iter().find(|e| e.inj != 0).map(|e| e.idx) {
+                        Some(fi) => Some((fi..ex.res.decisions.len()).collect()),
+                        None => Some(Default::default()),
+                    }
                 } else {
                     None
                 };
-                for c in children_at(&ex, only.as_ref()) {
+                //   "@timerpoints": the only deviations are timed waits that expire before what they wait for happens
+                for c in children_sel(&ex, only.as_ref(), scen.name.contains("@timerpoints")) {
                     more.push((scen.clone(), c, budget - 1));
                 }
             }
